@@ -92,6 +92,8 @@ def product(ll_a, ll_b, spec):
                             ty = A.term(st, y, bits)
                             if z3.is_expr(tx) and z3.is_expr(ty) and tx.sort() != ty.sort():
                                 diffs.append(z3.BoolVal(True)); continue
+                            if z3.is_expr(tx) and z3.is_expr(ty) and z3.eq(tx, ty):
+                                continue        # syntactically the same term
                             diffs.append(tx != ty)
                         sa = [(s_, c) for s_, c in pa['asserted']]; sb = [(s_, c) for s_, c in pb['asserted']]
                         if [s_ for s_, _ in sa] != [s_ for s_, _ in sb]:
